@@ -1,2 +1,3 @@
 //! pvh — model-checking harness for libprio-rs (see /verif/DESIGN.md).
 pub mod engine;
+pub mod kit;
